@@ -251,6 +251,10 @@ def jobs(tier):
                           dict(kind=kind, M=m, S=s, mapname=mapname, register=reg, K=K, dw=dw), cost=m * s))
     js.append(Job("wb_shared_2x2_adjacent_d8_timeout4_fastslaves", build, dict(kind="shared", M=2, S=2, mapname="adjacent", register=False, K=K, timeout=4), cost=4))
     js.append(Job("wb_shared_2x2_adjacent_d8_aw4_6", build, dict(kind="shared", M=2, S=2, mapname="adjacent", register=False, K=K, maws=(4, 6)), cost=4))
+    # the shared bus with its watchdog and slaves that may stay silent: "each request receives exactly one termination" also when the
+    # termination is the watchdog's (harness of C11)
+    from vf.props.c11 import build_wb as _build_wb_timeout
+    js.append(Job("wb_timeout2_2x2_hole", _build_wb_timeout, dict(M=2, S=2, mapname="hole", cycles=2, K=K), cost=6))
     js.append(Job("wb_p2p_1x1_adjacent_d8", build, dict(kind="p2p", M=1, S=1, mapname="adjacent", register=False, K=8), cost=1))
     return js
 
